@@ -12,7 +12,10 @@ FOLDER_SIG = "autoimport-folder-events: the index ignores moves and removals of 
 EXTERNAL_SIG = "autoimport-no-validate: the index is not told about changes found by project.validate()"
 
 NAMES = ["ka", "kb", "kc"]
-MODS = ["ma", "mb", "mc"]
+# module names: ordinary ones, and pairs whose dotted names are different but "alike" for an SQL LIKE comparison
+# ('_' matches any one character: m_a ~ mxa, pa_mb ~ pa.mb; ASCII case is ignored: Ma ~ ma): refreshing or deleting
+# the rows of one module must leave the other's alone
+MODS = ["ma", "mb", "mc", "m_a", "mxa", "Ma", "pa_mb"]
 DIRS = ["pa", "pb", "pc"]
 
 
